@@ -435,6 +435,96 @@ def helpers(ctx: Ctx):
     ctx.ob("C03.b", "get_distance", ok, fi.loc, why, construct="get_distance:definition")
 
 
+def _legs(node, guards=()):
+    """additive structure of an accumulator update: [(distance atom, guards)]; a guard is (boolean node, required truth value)"""
+    node = nf.strip(node)
+    out = []
+    if not isinstance(node, vg.S):
+        return out
+    if node.op in ("+", "-"):
+        for x in node.args:
+            out += _legs(x, guards)
+        return out
+    if node.op == "*":
+        a, b = node.args
+        for x, y in ((a, b), (b, a)):
+            if isinstance(x, vg.S) and (nf._is_boolish(nf.strip(x, True)) or nf.strip(x, True).op in ("inv", "not")):
+                return _legs(y, guards + ((x, True),))
+        for x in node.args:
+            out += _legs(x, guards)
+        return out
+    if nf._fn(node) == "torch.where" and len(node.args) == 4:
+        return _legs(node.args[2], guards + ((node.args[1], True),)) + _legs(node.args[3], guards + ((node.args[1], False),))
+    if node.op in ("phi", "ifexp"):
+        return _legs(node.args[1], guards) + _legs(node.args[2], guards)
+    fn = nf._fn(node)
+    if (fn in nf.DIST_FN) or (node.op == "meth" and node.args[1] == "norm"):
+        return [(node, guards)]
+    return out
+
+
+def padding_invariance(ctx: Ctx, rule: str, sl, acc_value, label="MTSPEnv._step:current_length"):
+    """An instance that is already finished (no customer open in the incoming mask) is only padded with depot steps while its
+    batch-mates run on.  Every travelled leg added to the length accumulator must then be switched off by a guard that is
+    false in that state; otherwise the state-derived reward depends on how long the batch keeps running."""
+    name = sl.td.name
+
+    def assume(n):
+        n0 = nf.strip(n, True)
+        # the incoming mask restricted to the customers: nothing open
+        if n0.op == "sub" and nf.strip(n0.args[0], True).op == "cell0" and nf.strip(n0.args[0], True).args[1] == "action_mask":
+            return False
+        r = nf._cmp_raw(n0)
+        if r is not None:
+            lhs, op, rhs = r
+            L = nf.strip(lhs, True)
+            counts = (L.op == "meth" and L.args[1] in ("sum", "count_nonzero")) or nf._fn(L) in ("torch.count_nonzero", "torch.sum")
+            if counts and vg.is_const(rhs, 0):
+                inner = L.args[0] if L.op == "meth" else L.args[1]
+                i0 = nf.strip(inner, True)
+                if i0.op == "sub" and nf.strip(i0.args[0], True).op == "cell0" and nf.strip(i0.args[0], True).args[1] == "action_mask":
+                    return {"==": True, "<=": True, ">": False, "!=": False}.get(op)
+        if n0.op == "cell0" and n0.args[1] == "done":
+            return True
+        return None
+    legs = _legs(acc_value)
+    if not legs:
+        from ..model import AnalysisError
+        raise AnalysisError(f"{label}: no travelled leg found in the accumulator update")
+    def endpoint(x):
+        """which node of the instance a location operand is: 'pad' for locs[action] (the padding action is the depot, index 0)
+        and for locs[..., 0, :]; otherwise the expression itself"""
+        x0 = nf.strip(x)
+        if (nf._fn(x0) or "").endswith(":gather_by_index") and len(x0.args) >= 3 and nf.strip(x0.args[2]).op == "cell0" and nf.strip(x0.args[2]).args[1] == "action":
+            return "pad"
+        if x0.op == "sub" and x0.args[1].op == "tuple" and any(vg.is_const(c, 0) for c in x0.args[1].args) and nf.strip(x0.args[0]).op == "cell0" and nf.strip(x0.args[0]).args[1] == "locs":
+            return "pad"
+        return x0.id
+
+    def zero_under_padding(leg):
+        # get_distance(a, b) with both endpoints at the depot once action == padding action
+        if nf._fn(leg) in nf.DIST_FN and len(leg.args) >= 3:
+            return endpoint(leg.args[1]) == endpoint(leg.args[2]) == "pad"
+        return False
+    bad = []
+    for leg, guards in legs:
+        if zero_under_padding(leg):
+            continue
+        killed = False
+        for g, want in guards:
+            v = nf.kleene(g, assume)
+            if v is not None and v != want:
+                killed = True
+        if not killed:
+            bad.append((leg, guards))
+    ok = not bad
+    ctx.ob(rule, f"{label}:frozen-after-finish", ok, sl.where,
+           f"{len(legs)} leg term(s) are added to the accumulator; each is guarded by a test that is false once no customer is open in the incoming mask" if ok else
+           f"leg `{vg.show(bad[0][0], 3)[:120]}` is added under guards {[vg.show(g, 2) for g, _ in bad[0][1]]} that do not switch it off for an already finished instance: "
+           "padding steps forced by a slower batch-mate keep adding length, so the reward depends on the batch composition",
+           construct=f"{label}:padding-leg")
+
+
 def incremental(ctx: Ctx):
     """C03.d: objectives accumulated by _step."""
     # ---- mTSP
@@ -466,6 +556,7 @@ def incremental(ctx: Ctx):
     ctx.ob("C03.d", "MTSPEnv._step:current_length", okc and has_return, sl.where,
            f"current_length' = {pc.show(2)} (reset factor on every term: {okc}; return leg added under done: {has_return})",
            construct="MTSPEnv._step:current_length")
+    padding_invariance(ctx, "C03.d", sl, cur)
     # ---- MDCPDP
     env = EnvA(ctx.repo, T.ENVS["MDCPDPEnv"][0], "MDCPDPEnv")
     sl = env.slot("_step")
